@@ -55,6 +55,11 @@ def build_corpus(tier, rng):
         vs = [Variant("Index", "tuple", [Field("usize")]), Variant("IndexMut", "unit"), Variant("IndexRef", "named", [Field("u8", "a"), Field("String", "b")]),
               Variant("Other", "tuple", [Field("String"), Field("u8")]), Variant("OtherRef", "unit", [], [DISABLED])]
         items.append(("affix", Item("E", vs if order == 0 else list(reversed(vs)))))
+    # WIDE tuple variants: try_as_* carries all of the fields, however many (binding names must not run out at 26 letters)
+    wide_tys = ["u8", "i32", "bool", "String", "usize"]
+    for nf in (12, 26, 27, 40):
+        items.append(("wide", Item("E", [Variant("Wide%d" % nf, "tuple", [Field(wide_tys[q % 5]) for q in range(nf)]), Variant("Narrow", "tuple", [Field("u8")]),
+                                        Variant("Unit", "unit")])))
     # lifetimes (EnumIs / EnumTryAs accept them)
     items.append(("lifetime", Item("E", [Variant("Borrowed", "tuple", [Field("&'l0 str"), Field("u8")]), Variant("Owned", "tuple", [Field("String")]),
                                         Variant("Nothing", "unit")], lifetimes=1)))
